@@ -755,4 +755,77 @@ Proof.
     rewrite !andb_false_r. apply Fr; exact Hi.
 Qed.
 
+(** ** collapse to the midpoint, one half-cell: the triangle l -> a -> b (l already 2-free) whose two other sides are
+    glued to A2 and B2 disappears and B2 | A2 are glued; nothing else changes *)
+Theorem halfcell_to_midpoint_topology E n ks l a b c w cnt w' cnt' :
+  let A2 := beta w 2 a in let B2 := beta w 2 b in
+  NoDup [l; a; b; A2; B2] -> ~ In 0 [l; a; b; A2; B2] ->
+  beta w 1 l = a -> beta w 1 a = b -> beta w 1 b = l -> beta w 2 l = 0 ->
+  run E (collapse_halfcell_to_midpoint n ks b l a) c w cnt = (Done tt, w', cnt') ->
+  (forall i y, beta w' i y =
+     if (y =? l) || (y =? a) || (y =? b) then (if i <? 3 then 0 else beta w i y)
+     else if i =? 2 then (if y =? B2 then A2 else if y =? A2 then B2 else beta w 2 y)
+     else beta w i y) /\
+  (forall y, unused w' y = if (y =? l) || (y =? a) || (y =? b) then true else unused w y).
+Proof.
+  intros A2 B2.
+  remember (beta w 2 a) as A2' eqn:EA. subst A2. rename A2' into A2.
+  remember (beta w 2 b) as B2' eqn:EB. subst B2. rename B2' into B2.
+  intros Hnd Hz B1 B2' B3 Zl Hr.
+  assert (Z : l <> 0 /\ a <> 0 /\ b <> 0 /\ A2 <> 0 /\ B2 <> 0).
+  { cbn [In] in Hz. repeat split; intros Q; apply Hz; rewrite Q; tauto. }
+  destruct Z as (Z1 & Z2 & Z3 & Z4 & Z5).
+  assert (D : (l <> a /\ l <> b /\ l <> A2 /\ l <> B2) /\ (a <> b /\ a <> A2 /\ a <> B2) /\ (b <> A2 /\ b <> B2) /\ A2 <> B2).
+  { clear - Hnd. repeat match goal with Hq : NoDup (_ :: _) |- _ => inversion Hq; clear Hq; subst end.
+    cbn [In] in *. repeat split; intros Q; intuition congruence. }
+  destruct D as ((Q1 & Q2 & Q3 & Q4) & (Q5 & Q6 & Q7) & (Q8 & Q9) & Q10).
+  clear Hnd Hz.
+  unfold collapse_halfcell_to_midpoint in Hr.
+  stepU (@unsew1_stepU unit) Hr F1 U1. rewrite B1 in F1.
+  stepU (@unsew1_stepU unit) Hr F2 U2.
+  assert (V2 : beta wk 1 a = b) by (lk; auto). rewrite V2 in F2.
+  stepU (@unsew1_stepU unit) Hr F3 U3.
+  assert (V3 : beta wk0 1 b = l) by (lk; auto). rewrite V3 in F3.
+  apply rd_stepY' in Hr. apply rd_stepY' in Hr.
+  assert (R1 : beta wk1 2 b = B2) by (lk; auto).
+  assert (R2 : beta wk1 2 a = A2) by (lk; auto).
+  rewrite R1, R2 in Hr.
+  stepU (@unsew2_stepU unit) Hr F4 U4. rewrite R1 in F4.
+  stepU (@unsew2_stepU unit) Hr F5 U5.
+  assert (V5 : beta wk2 2 a = A2) by (lk; auto). rewrite V5 in F5.
+  stepU (@sew2_stepU unit) Hr F6 U6.
+  stepU (@remove_stepU unit) Hr F7 U7. stepU (@remove_stepU unit) Hr F8 U8.
+  assert (Hl : step_to w' (beta wk6) (p_remove (unused wk6) a)).
+  { unfold remove_dart_tx in Hr. cbn [run bind rdU wrU] in Hr. destruct (e_dom E (XUnused a)); [|discriminate Hr]. cbn [run] in Hr.
+    injection Hr as <- <-. split.
+    - intros i d. unfold beta. rewrite upd_other by discriminate. reflexivity.
+    - intros d. unfold p_remove. apply unused_upd_unused. }
+  destruct Hl as [F9 U9]. unfold img_eq, fl_eq, p_remove in F9, U9.
+  split.
+  - intros i y.
+    destruct (N.eqb_spec i 0) as [->|Ni0]; [|destruct (N.eqb_spec i 1) as [->|Ni1]; [|destruct (N.eqb_spec i 2) as [->|Ni2]]].
+    + change (0 <? 3) with true. change (0 =? 2) with false. lk.
+      destruct (N.eqb_spec y l) as [->|M1]; [simpl_ne; reflexivity|].
+      destruct (N.eqb_spec y a) as [->|M2]; [simpl_ne; reflexivity|].
+      destruct (N.eqb_spec y b) as [->|M3]; [simpl_ne; reflexivity|]. simpl_ne. reflexivity.
+    + change (1 <? 3) with true. change (1 =? 2) with false. lk.
+      destruct (N.eqb_spec y l) as [->|M1]; [simpl_ne; reflexivity|].
+      destruct (N.eqb_spec y a) as [->|M2]; [simpl_ne; reflexivity|].
+      destruct (N.eqb_spec y b) as [->|M3]; [simpl_ne; reflexivity|]. simpl_ne. reflexivity.
+    + change (2 <? 3) with true. change (2 =? 2) with true. lk.
+      destruct (N.eqb_spec y l) as [->|M1]; [simpl_ne; exact Zl|].
+      destruct (N.eqb_spec y a) as [->|M2]; [simpl_ne; reflexivity|].
+      destruct (N.eqb_spec y b) as [->|M3]; [simpl_ne; reflexivity|].
+      destruct (N.eqb_spec y B2) as [->|M4]; [simpl_ne; reflexivity|].
+      destruct (N.eqb_spec y A2) as [->|M5]; [simpl_ne; reflexivity|]. simpl_ne. reflexivity.
+    + assert (Hi : (i <? 3) = false) by (clear - Ni0 Ni1 Ni2; apply N.ltb_ge; lia). rewrite Hi.
+      rewrite F9, F8, F7, F6, F5, F4, F3, F2, F1.
+      rewrite (proj2 (N.eqb_neq i 0) Ni0), (proj2 (N.eqb_neq i 1) Ni1), (proj2 (N.eqb_neq i 2) Ni2). cbn [andb].
+      destruct ((y =? l) || (y =? a) || (y =? b)); reflexivity.
+  - intros y. rewrite U9, U8, U7, U6, U5, U4, U3, U2, U1.
+    destruct (N.eqb_spec y l) as [->|M1]; [simpl_ne; reflexivity|].
+    destruct (N.eqb_spec y a) as [->|M2]; [simpl_ne; reflexivity|].
+    destruct (N.eqb_spec y b) as [->|M3]; [simpl_ne; reflexivity|]. simpl_ne. reflexivity.
+Qed.
+
 End CollapseTopo.
